@@ -9,6 +9,7 @@ From WG Require Import BV.RefSel.
 From WG Require Import BV.Bits.
 From WG Require Import Par.Splice.
 From WG Require Import Flags.Props.
+From WG Require Import Algo.HyperBall.
 
 Extraction Language OCaml.
 
@@ -56,4 +57,12 @@ Extraction "model.ml"
   representable
   java_from_props
   version
+  hb_run_regs
+  cs_curr
+  cs_mod
+  cs_flags
+  cs_check
+  regs_sync
+  ball_sizes
+  hb_refused
 .
